@@ -1324,6 +1324,200 @@ def translate_exception_tables(repo=REPO):
         f"def post_answers : List (String × String) := {t2(outer_post)}\n")
 
 
+# ---------------------------------------------------------------------------
+# AutoIndexManager.find_present_keys: nested loops over several accumulators
+#
+# A block of assignments, `x.append/extend/add`, `self.desired[k] += 1`, `if` and `for` (no break /
+# continue / return inside the loops) is a state transformer over the variables it assigns: the
+# variables become the fields of a structure, every statement a `let s := …`, every `for` a
+# `List.foldl`.  Sets are lists without duplicates (`Py.setAdd`, `Py.setUnion`), the
+# `defaultdict(lambda: 0)` is a `Map Nat` read with default 0.
+
+class IB:
+    def __init__(self, fields, params, loopvars=None):
+        self.fields = fields          # name -> type  (state)
+        self.params = params          # python expression text -> (lean name, type)
+        self.loopvars = dict(loopvars or {})
+
+
+def ib_expr(e, cx):
+    """-> (text, type)"""
+    src = ast.unparse(e)
+    if src in cx.params:
+        return cx.params[src]
+    if isinstance(e, ast.Name):
+        if e.id in cx.loopvars:
+            return (e.id, cx.loopvars[e.id])
+        if e.id in cx.fields:
+            return (f"s.{e.id}", cx.fields[e.id])
+        raise Untranslatable(f"unknown name {e.id}")
+    if isinstance(e, ast.Constant) and isinstance(e.value, bool):
+        return ("true" if e.value else "false", "bool")
+    if isinstance(e, ast.Constant) and isinstance(e.value, int):
+        return (str(e.value), "nat")
+    if isinstance(e, ast.UnaryOp) and isinstance(e.op, ast.Not):
+        t, ty = ib_expr(e.operand, cx)
+        if ty == "bool":
+            return (f"(!{t})", "bool")
+        if ty in ("strlist", "strset"):
+            return (f"(List.isEmpty {t})", "bool")
+        raise Untranslatable(f"not on {ty}")
+    if isinstance(e, ast.Subscript) and ast.unparse(e.value) in cx.params and cx.params[ast.unparse(e.value)][1] == "natmap-state":
+        k, kty = ib_expr(e.slice, cx)
+        if kty != "sym":
+            raise Untranslatable("defaultdict key")
+        return (f"((s.desired[{k}]?).getD 0)", "nat")
+    if isinstance(e, ast.Compare) and len(e.ops) == 1:
+        a, aty = ib_expr(e.left, cx)
+        b, bty = ib_expr(e.comparators[0], cx)
+        op = e.ops[0]
+        if isinstance(op, ast.In) and aty == "sym" and bty in ("strlist", "strset"):
+            return (f"(List.contains {b} {a})", "bool")
+        if isinstance(op, ast.Gt) and aty == "nat" and bty == "nat":
+            return (f"(decide ({a} > {b}))", "bool")
+    raise Untranslatable(f"block expression {src[:60]}")
+
+
+def ib_truthy(e, cx):
+    t, ty = ib_expr(e, cx)
+    if ty == "bool":
+        return t
+    if ty in ("strlist", "strset"):
+        return f"(!(List.isEmpty {t}))"
+    raise Untranslatable(f"truthiness of {ty}")
+
+
+def ib_stmts(stmts, cx, indent):
+    """-> Lean term (a state), given the current state `s`"""
+    pad = "  " * indent
+    out = []
+    for st in stmts:
+        if isinstance(st, ast.Expr) and isinstance(st.value, ast.Call) and ast.unparse(st.value.func).startswith("logging."):
+            continue
+        if isinstance(st, ast.Assign) and len(st.targets) == 1 and isinstance(st.targets[0], ast.Name) and st.targets[0].id in cx.fields:
+            t, ty = ib_expr(st.value, cx)
+            if ty != cx.fields[st.targets[0].id]:
+                raise Untranslatable("assignment type")
+            out.append(f"{{ s with {st.targets[0].id} := {t} }}")
+        elif isinstance(st, ast.Expr) and isinstance(st.value, ast.Call) and isinstance(st.value.func, ast.Attribute) \
+                and isinstance(st.value.func.value, ast.Name) and st.value.func.value.id in cx.fields and len(st.value.args) == 1:
+            v, m = st.value.func.value.id, st.value.func.attr
+            t, ty = ib_expr(st.value.args[0], cx)
+            fty = cx.fields[v]
+            if m == "append" and fty == "strlist" and ty == "sym":
+                out.append(f"{{ s with {v} := s.{v} ++ [{t}] }}")
+            elif m == "extend" and fty == "strlist" and ty == "strlist":
+                out.append(f"{{ s with {v} := s.{v} ++ {t} }}")
+            elif m == "add" and fty == "strset" and ty == "sym":
+                out.append(f"{{ s with {v} := Py.setAdd s.{v} {t} }}")
+            else:
+                raise Untranslatable(f"{v}.{m}({ty})")
+        elif isinstance(st, ast.AugAssign) and isinstance(st.op, ast.Add) and isinstance(st.target, ast.Subscript) \
+                and ast.unparse(st.target.value) in cx.params and cx.params[ast.unparse(st.target.value)][1] == "natmap-state" \
+                and isinstance(st.value, ast.Constant) and st.value.value == 1:
+            k, kty = ib_expr(st.target.slice, cx)
+            if kty != "sym":
+                raise Untranslatable("defaultdict key")
+            out.append(f"{{ s with desired := s.desired.insert {k} (((s.desired[{k}]?).getD 0) + 1) }}")
+        elif isinstance(st, ast.If) and not st.orelse:
+            c = ib_truthy(st.test, cx)
+            body = ib_stmts(st.body, cx, indent + 1)
+            out.append(f"(if {c} then\n{body}\n{pad}  else s)")
+        elif isinstance(st, ast.For) and isinstance(st.target, ast.Name) and not st.orelse:
+            it, ity = ib_expr(st.iter, cx)
+            elem = {"strlist": "sym", "strlistlist": "strlist"}.get(ity)
+            if elem is None:
+                raise Untranslatable(f"for over {ity}")
+            saved = dict(cx.loopvars)
+            cx.loopvars[st.target.id] = elem
+            body = ib_stmts(st.body, cx, indent + 2)
+            cx.loopvars = saved
+            out.append(f"(List.foldl (fun s {st.target.id} =>\n{body}) s {it})")
+        else:
+            raise Untranslatable(f"block statement {ast.unparse(st)[:60]}")
+    text = ""
+    for o in out:
+        text += f"{pad}let s := {o}\n"
+    return text + f"{pad}s"
+
+
+def translate_find_present_keys(repo=REPO):
+    src = ast.parse(open(os.path.join(repo, "xandikos/store/index.py"), encoding="utf-8").read())
+    fn = _find_method(src, "AutoIndexManager", "find_present_keys")
+    if [a.arg for a in fn.args.args] != ["self", "necessary_keys"]:
+        raise Untranslatable("signature changed")
+    # the counters are a defaultdict(lambda: 0) and the threshold an attribute set in __init__
+    init = _find_method(src, "AutoIndexManager", "__init__")
+    isrc = ast.unparse(init)
+    if "self.desired: dict[IndexKey, int] = collections.defaultdict(lambda: 0)" not in isrc or "self.indexing_threshold = threshold" not in isrc:
+        raise Untranslatable("AutoIndexManager.__init__ changed")
+    body = [b for b in fn.body if not (isinstance(b, ast.Expr) and isinstance(b.value, ast.Constant))]
+    # prologue
+    k = next((j for j, b in enumerate(body) if isinstance(b, ast.For)), None)
+    if k is None:
+        raise Untranslatable("no loop")
+    fields = {"found": "bool", "desired": "natmap"}
+    params = {"self.index.available_keys()": ("available_keys", "strlist"), "self.indexing_threshold": ("indexing_threshold", "nat"),
+              "necessary_keys": ("necessary_keys", "strlistlist"), "self.desired": ("s.desired", "natmap-state")}
+    order = []
+    for b in body[:k]:
+        tgt = b.target if isinstance(b, ast.AnnAssign) else (b.targets[0] if isinstance(b, ast.Assign) and len(b.targets) == 1 else None)
+        if not isinstance(tgt, ast.Name):
+            raise Untranslatable("prologue statement")
+        v = ast.unparse(b.value)
+        if v == "self.index.available_keys()":
+            params[tgt.id] = ("available_keys", "strlist")
+        elif v == "[]":
+            fields[tgt.id] = "strlist"
+            order.append(tgt.id)
+        elif v == "set()":
+            fields[tgt.id] = "strset"
+            order.append(tgt.id)
+        else:
+            raise Untranslatable(f"prologue value {v}")
+    cx = IB(fields, params)
+    loop_txt = ib_stmts([body[k]], cx, 1)
+    # epilogue: if not missing: return needed / if new: reset(set(available) | new) / return None
+    epi = [b for b in body[k + 1:]]
+    if len(epi) != 3:
+        raise Untranslatable("epilogue length")
+    r1, r2, r3 = epi
+    if not (isinstance(r1, ast.If) and not r1.orelse and len(r1.body) == 1 and isinstance(r1.body[0], ast.Return)
+            and isinstance(r1.body[0].value, ast.Name) and r1.body[0].value.id in fields):
+        raise Untranslatable("first return")
+    c1 = ib_truthy(r1.test, cx)
+    ret1 = r1.body[0].value.id
+    r2body = [b for b in r2.body if not (isinstance(b, ast.Expr) and isinstance(b.value, ast.Call) and ast.unparse(b.value.func).startswith("logging."))] \
+        if isinstance(r2, ast.If) else None
+    if not (isinstance(r2, ast.If) and not r2.orelse and len(r2body) == 1 and isinstance(r2body[0], ast.Expr)
+            and isinstance(r2body[0].value, ast.Call) and ast.unparse(r2body[0].value.func) == "self.index.reset"):
+        raise Untranslatable("reset statement")
+    c2 = ib_truthy(r2.test, cx)
+    arg = r2body[0].value.args[0]
+    if not (isinstance(arg, ast.BinOp) and isinstance(arg.op, ast.BitOr) and ast.unparse(arg.left) == "set(self.index.available_keys())"
+            and isinstance(arg.right, ast.Name) and fields.get(arg.right.id) == "strset"):
+        raise Untranslatable("reset argument")
+    if not (isinstance(r3, ast.Return) and isinstance(r3.value, ast.Constant) and r3.value.value is None):
+        raise Untranslatable("final return")
+    flds = "\n".join(f"  {n} : {'List String' if fields[n] in ('strlist', 'strset') else 'Bool' if fields[n] == 'bool' else 'Map Nat'}"
+                     + (" := []" if fields[n] in ("strlist", "strset") else " := false" if fields[n] == "bool" else "")
+                     for n in order + ["found", "desired"])
+    return (
+        "/-- the variables `AutoIndexManager.find_present_keys` assigns -/\n"
+        f"structure FpkState where\n{flds}\n\n"
+        "/-- translated from `xandikos/store/index.py::AutoIndexManager.find_present_keys`: the loops -/\n"
+        "def find_present_keys_loops (available_keys : List String) (indexing_threshold : Nat) (necessary_keys : List (List String))\n"
+        f"    (s : FpkState) : FpkState :=\n{loop_txt}\n\n"
+        "/-- …and what it returns: the counters afterwards, the result (`some keys`: use the index; `none`), and the\n"
+        "    argument of `self.index.reset(…)` when it is called -/\n"
+        "def find_present_keys (available_keys : List String) (indexing_threshold : Nat) (desired : Map Nat)\n"
+        "    (necessary_keys : List (List String)) : Map Nat × Option (List String) × Option (List String) :=\n"
+        "  let s := find_present_keys_loops available_keys indexing_threshold necessary_keys { desired := desired }\n"
+        f"  if {c1} then (s.desired, some s.{ret1}, none)\n"
+        f"  else if {c2} then (s.desired, none, some (Py.setUnion available_keys s.{arg.right.id}))\n"
+        "  else (s.desired, none, none)\n")
+
+
 SCAN_SPECS = [
     dict(module="Unescape", file="xandikos/icalendar.py", func="_unescape_text", lean="unescape_text",
          params=[("text", "str"), ("split", "bool")], returns="strlist",
@@ -1467,6 +1661,10 @@ def generate(repo=REPO, out_dir=GEN_DIR):
         mods["ExcTables"] = [({"func": "exception tables"}, translate_exception_tables(repo), None)]
     except (Untranslatable, SyntaxError, KeyError, IndexError, AttributeError, StopIteration) as e:
         mods["ExcTables"] = [({"func": "exception tables"}, None, f"{type(e).__name__}: {e}")]
+    try:
+        mods["FindKeys"] = [({"func": "AutoIndexManager.find_present_keys"}, translate_find_present_keys(repo), None)]
+    except (Untranslatable, SyntaxError, KeyError, IndexError, AttributeError, StopIteration) as e:
+        mods["FindKeys"] = [({"func": "AutoIndexManager.find_present_keys"}, None, f"{type(e).__name__}: {e}")]
     mods["Gates"] = []
     for g in GATES:
         try:
@@ -1479,6 +1677,8 @@ def generate(repo=REPO, out_dir=GEN_DIR):
         hdr = HEADER
         if mod == "Gates":
             hdr = HEADER.replace("import Xandikos.Py.Dict\n", "import Xandikos.Py.Dict\nimport Xandikos.Generated.Etag\n")
+        if mod == "FindKeys":
+            hdr = HEADER.replace("import Xandikos.Py.Dict\n", "import Xandikos.Py.Dict\nimport Xandikos.Base\n")
         if mod == "Multiget":
             hdr = HEADER.replace("import Xandikos.Py.Dict\n", "import Xandikos.Py.Dict\nimport Xandikos.Generated.Href\n")
         text = hdr + "\n".join(t for s, t, err in items if t)
